@@ -674,3 +674,105 @@ PROPS["C16"] = dict(
     assumptions=[],
     trusted_base=TB_COMMON + ["serde_json 1.0 and bincode 1.3 as the two formats (element-sequence and byte-string encodings of byte arrays)"],
 )
+
+# ---------------------------------------------------------------------------------------------- C18
+
+
+def _c18_run(ctx):
+    import subprocess
+    from concurrent.futures import ThreadPoolExecutor
+    m = ctx["m"]
+    tier = ctx["tier"]
+    cfgs = [("default(stable,u64_backend)", "st-default"), ("nightly", "ni-probe"), ("nightly+simd_backend", "ni-simd-probe")]
+    bins = {}
+    with ThreadPoolExecutor(max_workers=3) as ex:
+        futs = {name: ex.submit(ctx["build"], b) for name, b in cfgs}
+        for (name, b) in cfgs:
+            binary, bt = futs[name].result()
+            bins[name] = binary
+            ctx["builds_used"][b] = round(bt, 1)
+    nsh = ctx["nshards"]
+    transcripts = {}
+    container_ok = 0
+    summaries = {}
+
+    def one(args):
+        name, i = args
+        cmd = [bins[name], str(i), str(nsh)] + (["thorough"] if tier == "thorough" else [])
+        p = subprocess.run(cmd, env=ctx["env"], stdout=subprocess.PIPE, stderr=subprocess.PIPE, text=True, timeout=3000)
+        return name, i, p.returncode, p.stdout, p.stderr[-500:]
+    jobs = [(name, i) for name, _ in cfgs for i in range(nsh)]
+    with ThreadPoolExecutor(max_workers=16) as ex:
+        results = list(ex.map(one, jobs))
+    meta = dict(seed=ctx["seed"], tier=tier, monitor="vprobe", build="st-default+ni-probe+ni-simd-probe", shard=-1, nshards=nsh)
+    for name, i, rc, out, err in results:
+        t = transcripts.setdefault(name, {})
+        saw_summary = False
+        for line in out.splitlines():
+            parts = line.split("\t")
+            if parts[0] == "SUMMARY":
+                saw_summary = True
+                summaries[name] = summaries.get(name, 0) + int(parts[1])
+            elif parts[0] == "CONTAINER_OK":
+                container_ok += 1
+                fam = parts[1].split("/")[0]
+                m.cov.setdefault("container_comparison", {}).setdefault("%s [%s]" % (fam, name), 0)
+                m.cov["container_comparison"]["%s [%s]" % (fam, name)] += 1
+            elif parts[0] == "CONTAINER_MISMATCH":
+                fam = parts[1].split("/")[0]
+                m.add_viol("C18|container_types_disagree|%s" % fam, 1, {"config": name, "case": parts[1], "a": parts[2], "b": parts[3]}, meta)
+            elif len(parts) == 2:
+                t[parts[0]] = parts[1]
+        if rc != 0 or not saw_summary:
+            m.problems.append("vprobe %s shard %d ended abnormally: rc=%s %s" % (name, i, rc, err.replace("\n", " | ")))
+    base_name = cfgs[0][0]
+    base = transcripts.get(base_name, {})
+    compared = 0
+    for name, _ in cfgs[1:]:
+        t = transcripts.get(name, {})
+        if set(t) != set(base):
+            m.problems.append("transcripts of %s and %s cover different case ids (%d vs %d)" % (base_name, name, len(base), len(t)))
+        for cid, v in base.items():
+            if cid in t:
+                compared += 1
+                if t[cid] != v:
+                    fam = cid.split("/")[0]
+                    m.add_viol("C18|output_differs_between_configurations|%s|%s" % (fam, name), 1, {"case": cid, base_name: v, name: t[cid]}, meta)
+    for cid in base:
+        fam = cid.split("/")[0]
+        d = m.cov.setdefault("probe_family", {})
+        d[fam] = d.get(fam, 0) + 1
+        m.keys.add("c18:" + cid)
+    m.evals += compared + container_ok
+    for fam in ("gh2", "argon2", "kdf", "sign"):
+        ex_ids = [c for c in base if c.startswith(fam + "/")][:1]
+        for c in ex_ids:
+            m.samples.append({"case": c, "output": base[c], "identical_in": [n for n, _ in cfgs]})
+    ctx["extra_cov"]["configurations"] = [n for n, _ in cfgs]
+    ctx["extra_cov"]["transcript_lines_per_configuration"] = {n: len(transcripts.get(n, {})) for n, _ in cfgs}
+    ctx["extra_cov"]["container_comparisons_ok"] = container_ok
+
+
+def _c18_floors(m, tier):
+    out = need(m, "probe_family", ["gh", "ghpair", "gh2", "gh3", "sha512", "auth", "poly1305", "siphash", "kdf", "boxseed", "x25519", "kx", "box", "secretbox", "seal_open", "sign", "signph", "argon2"], "probe families")
+    cc = m.cov.get("container_comparison", {})
+    for fam in ["gh:stack-vs-locked", "kdf:stack-vs-locked", "precalc:stack-vs-lockedro", "secretbox:stack-vs-locked", "box:stack-vs-locked", "sign:stack-vs-locked", "kx:stack-vs-locked"]:
+        for cfgname in ("nightly", "nightly+simd_backend"):
+            if "%s [%s]" % (fam, cfgname) not in cc:
+                out.append("container comparison %s never ran in %s" % (fam, cfgname))
+    return out[:10]
+
+
+PROPS["C18"] = dict(
+    level="exploration",
+    technique="runtime differential monitoring across builds: one deterministic probe corpus is executed by three builds of the crate (default software backend on stable, nightly, nightly + portable-SIMD backend) and the output transcripts are diffed; inside the nightly builds every operation is repeated with stack / Vec / heap / locked / read-only-locked containers and compared in-process",
+    level_text="The probe corpus covers BLAKE2b one-shot for every length 0..=520 (quick) / 1100 (thorough) and all 49x50 digest/key pairs, every 2-way chunking of every length 0..=400/700 and 3-way chunkings at the block "
+               "boundaries, SHA-512, HMAC, Poly1305, SipHash, KDF (all lengths x ids), seeded box key pairs, X25519, kx, box, secretbox, hand-built sealed boxes (nonce derivation), signatures (pure and pre-hashed) "
+               "and an Argon2 grid including password lengths that end on BLAKE2b block boundaries. Any differing transcript line or container mismatch is a violation. Inputs are fixed by the corpus, hence exploration.",
+    level_note="Equality with the specifications is decided by C07/C08/C09/C12 on the stable build; C18 adds that the other configurations and container types produce the same bytes.",
+    runs=lambda tier: [dict(kind="custom", fn=_c18_run)],
+    floors=_c18_floors,
+    rule="a case is one probe id (operation, parameters); distinct by id; evaluations = pairwise transcript comparisons + in-process container comparisons",
+    assumptions=["only configurations that build on this machine are compared: default, nightly, nightly+simd_backend (x86_64 Linux)"],
+    trusted_base=TB_COMMON + ["the folding of outputs longer than 64 bytes uses a 128-bit FNV implemented in the probe, not a dryoc primitive"],
+)
